@@ -220,6 +220,9 @@ TraceInitState == [tid |-> 0, skip |-> TRUE]
 
 Apply(s, e) ==
     IF e.ev = "MakeArgs" THEN ApplyMakeArgs(s, e)
+    \* C09: the compiled-C and the pure-Python execution of one definition returned these
+    ELSE IF e.ev = "Twin" THEN
+        [st |-> s, bad |-> IF e.c = e.py THEN <<>> ELSE <<"twin-differs", ToString(<<e.c, e.py>>)>>]
     ELSE IF s.skip \/ s.tid # e.tid THEN [st |-> s, bad |-> <<>>]   \* after a rejection: skip to next tid
     ELSE IF e.ev = "KernelCall" THEN ApplyKernelCall(s, e)
     ELSE IF e.ev = "Result" THEN ApplyResult(s, e)
